@@ -26,6 +26,7 @@ type Unit struct {
 	Race     bool // needs the -race build
 	Run      func(c *Ctx)
 	Thorough bool // runs in the thorough tier only
+	StallSec int  // watchdog: a case of this unit that makes no progress for this long is a stall (0 = the tier's default, minutes)
 }
 
 // A Property bundles the units that decide one property.
